@@ -42,6 +42,17 @@ def head_mutations(rng):
             ("status-code-negative", rep(b" 101 ", b" -101 ")),
             ("status-code-huge", rep(b" 101 ", b" " + b"9" * 400 + b" ")),
             ("status-code-unicode-digits", rep(b" 101 ", " ١٠١ ".encode())),
+            # characters that str.isdigit()/isnumeric() accept and int() does not, and digit strings beyond int()'s conversion limit
+            ("status-code-superscript", rep(b" 101 ", " ² ".encode())),
+            ("status-code-superscript-mixed", rep(b" 101 ", " 10¹ ".encode())),
+            ("status-code-circled", rep(b" 101 ", " ①①① ".encode())),
+            ("status-code-fraction", rep(b" 101 ", " ½ ".encode())),
+            ("status-code-roman", rep(b" 101 ", " Ⅻ ".encode())),
+            ("status-code-fullwidth", rep(b" 101 ", " １０１ ".encode())),
+            ("status-code-underscore", rep(b" 101 ", b" 1_01 ")),
+            ("status-code-plus", rep(b" 101 ", b" +101 ")),
+            ("status-code-5000-digits", rep(b" 101 ", b" " + b"1" * 5000 + b" ")),
+            ("status-code-4301-digits", rep(b" 101 ", b" " + b"7" * 4301 + b" ")),
             ("status-line-tabs", rep(b"HTTP/1.1 101 Switching", b"HTTP/1.1\t101\tSwitching")),
             ("no-reason", rep(b" 101 Switching Protocols", b" 101")),
             ("only-crlf", b"\r\n"), ("only-lf", b"\n"), ("empty", b""), ("double-crlf-first", b"\r\n\r\n" + T),
@@ -123,6 +134,9 @@ def run(res, tier, seed, shard, nshards):
         jobs.append(("F", "random", None, None))
     for i in range(6):
         jobs.append(("D", i))
+    # server bytes outlive the connection that carried them: Set-Cookie data of earlier responses (process-wide jar) meets later connects
+    for i in range(300 if tier == "quick" else 8000):
+        jobs.append(("K", i))
 
     def scen():
         for ji, job in enumerate(jobs):
@@ -132,6 +146,8 @@ def run(res, tier, seed, shard, nshards):
                 handshake_case(res, W, rng, job, ji)
             elif job[0] == "F":
                 frame_case(res, W, rng, job, ji, tier)
+            elif job[0] == "K":
+                cookie_history_case(res, W, rng)
             else:
                 declared_pairs(res, W, rng, job[1])
 
@@ -155,6 +171,65 @@ def record_exception(res, W, e, phase, label, case, conn):
     fr = H.repo_frame_of(e)
     res.violation("internal-exception", f"{phase}/{label}: {name}: {str(e)[:120]} raised in {fr}", case,
                   phase=phase, exc_type=name, where=fr[1] if fr else None, input_class=label.split("@")[0])
+
+
+COOKIE_LINES = [
+    "sid=one; Domain=example.com", "sid=two; Domain=www.example.com", "sid=three; Domain=.example.com", "SID=four; Domain=EXAMPLE.com",
+    "a=1; b=2; Domain=example.com", "a=1; Domain=example.com; Domain=other.test", "novalue; Domain=example.com", "=empty; Domain=example.com",
+    "x=1; Domain=", "x=1; Domain", "x=1; Domain=.", "x=1; Domain=..", "x=1; Domain=*", "x=1; Domain=example.com; Max-Age=abc; Expires=never",
+    "x=\"quoted; semi\"; Domain=example.com", "x=1; Domain=example.com; Path=/; Secure; HttpOnly; SameSite=Lax", ";;;", "", " ", "=", "a==b; Domain=example.com",
+    "k\xe9y=v\xe4l; Domain=example.com", "k=v; Domain=ex\xe4mple.com", "k=" + "v" * 5000 + "; Domain=example.com", "k=v; Domain=" + "a." * 200 + "com",
+    "a=1, b=2; Domain=example.com", "$Version=1; a=1; Domain=example.com", "a=1; domain=example.com", "a=1;Domain=example.com;", "a=\x00\x01; Domain=example.com",
+    "sid=five; Domain=com", "sid=six; Domain=127.0.0.1", "sid=seven; Domain=::1", "[x]=1; Domain=example.com", "a b=c d; Domain=example.com",
+]
+
+
+def cookie_history_case(res, W, rng):
+    """3-5 connections in one process; each response sets cookies (well-formed, odd and malformed); targets inside the domains"""
+    H.reset_process_state()
+    hist = []
+    hosts = ["example.com", "www.example.com", "a.www.example.com", "other.test", "127.0.0.1", "EXAMPLE.com"]
+    case = {"phase": "handshake", "label": "cookie-history", "history": hist}
+    conns = []
+    cur = {}
+
+    def on_conn(conn):
+        conns.append(conn)
+
+        def resp(req):
+            extra = []
+            for ln in cur["lines"]:
+                extra.append("Set-Cookie: " + ln)
+            return H.response_101(H.request_key(req) or "", extra)
+        H.HandshakePeer(conn, response=resp)
+
+    H.make_net(on_conn)
+    for step in range(rng.randrange(3, 6)):
+        host = rng.choice(hosts)
+        lines = [rng.choice(COOKIE_LINES) for _ in range(rng.choice([0, 1, 1, 2, 3]))]
+        cur["lines"] = lines
+        hist.append((host, lines))
+        kw = {}
+        if rng.random() < 0.3:
+            kw["cookie"] = rng.choice(["c=1", "sid=mine", "", "a=1; b=2"])
+        w = None
+        try:
+            w = W.create_connection(f"ws://{host}/", timeout=2, **kw)
+            res.count("cookie_history_connects")
+        except BaseException as e:  # noqa
+            if isinstance(e, (KeyboardInterrupt, sched.SimAbort)):
+                raise
+            record_exception(res, W, e, "handshake", "cookie-history", dict(case, history=list(hist)), conns[-1] if conns else None)
+            break
+        finally:
+            if w is not None:
+                try:
+                    w.shutdown()
+                except Exception:  # noqa
+                    pass
+    res.case(("K", tuple((h, tuple(l)) for h, l in hist)), nontrivial=True)
+    res.count("cookie_history_cases")
+    H.reset_process_state()
 
 
 def size_monitor(res, conn, phase, label, case):
